@@ -92,6 +92,9 @@ Section Step.
   Variable vrec : id -> json -> res kind.
   Variable aprops : prop -> res (list pinfo).
   Variable orec : id -> json -> res expr.
+  Variable filling : list fkey.
+  Variable recfill : fkey -> id -> json -> res expr.
+  Variable self : id.
   Hypothesis IH : forall t v k, vrec t v = ROk k -> orec t v <> RErr.
 
   Lemma tuple_step : forall ts v k, v_tuple vrec ts v = ROk k -> o_tuple orec ts v <> RErr.
@@ -105,14 +108,15 @@ Section Step.
     exact (IH _ _ _ Hk Hx).
   Qed.
 
-  Lemma struct_step : forall ps v k, v_struct_props vrec aprops ps v = ROk k -> o_struct_props T orec ps v <> RErr.
+  Lemma struct_step : forall vid ps v k, v_struct_props vrec aprops ps v = ROk k -> o_struct_props T orec filling recfill self vid ps v <> RErr.
   Proof.
-    intros ps v k H. unfold v_struct_props in H. unfold o_struct_props.
+    intros vid ps v k H. unfold v_struct_props in H. unfold o_struct_props.
     apply rbind_ok in H. destruct H as [m [Hm _]]. rewrite Hm. cbn.
     intro E. apply rbind_err in E. destruct E as [E|[direct [_ E]]].
     - revert E. apply filter_map_r_not_err. intros p.
       destruct (wire_name p); [|discriminate].
-      destruct (assoc u m); [|destruct (p_state p); try discriminate];
+      destruct (assoc u m); [|destruct (p_state p); try discriminate;
+                               destruct (in_filling (self, vid, p_name p) filling); try discriminate];
         (intro E; apply rbind_err in E; destruct E as [E|[oe [_ E]]]; [exact (optional_not_err _ _ E)|discriminate]).
     - apply rbind_err in E. destruct E as [E|[fl [_ E]]]; [|discriminate].
       revert E. apply filter_map_r_not_err. intros p.
@@ -130,10 +134,10 @@ Section Step.
 
   Lemma payload_struct_not_err : forall name i ps c k,
     v_struct_props vrec aprops ps c = ROk k ->
-    rbind (o_struct_props T orec ps c) (fun fs => ROk (EVarStruct name i fs)) <> RErr.
+    rbind (o_struct_props T orec filling recfill self i ps c) (fun fs => ROk (EVarStruct name i fs)) <> RErr.
   Proof.
     intros name i ps c k H E. apply rbind_err in E. destruct E as [E|[fs [_ E]]]; [|discriminate].
-    exact (struct_step _ _ _ H E).
+    exact (struct_step _ _ _ _ H E).
   Qed.
 
   Lemma payload_tuple_not_err : forall name i ts c k,
@@ -144,7 +148,7 @@ Section Step.
     exact (tuple_step _ _ _ H E).
   Qed.
 
-  Lemma external_step : forall name vs v k, v_external vrec aprops vs v = ROk k -> o_external T orec name vs v <> RErr.
+  Lemma external_step : forall name vs v k, v_external vrec aprops vs v = ROk k -> o_external T orec filling recfill self name vs v <> RErr.
   Proof.
     intros name vs v k H. unfold v_external in H. unfold o_external.
     destruct v; cbn in H; try discriminate.
@@ -163,7 +167,7 @@ Section Step.
       + exact (payload_struct_not_err _ _ _ _ _ H E).
   Qed.
 
-  Lemma internal_step : forall name vs tg v k, v_internal vrec aprops vs tg v = ROk k -> o_internal T orec name vs tg v <> RErr.
+  Lemma internal_step : forall name vs tg v k, v_internal vrec aprops vs tg v = ROk k -> o_internal T orec filling recfill self name vs tg v <> RErr.
   Proof.
     intros name vs tg v k H. unfold v_internal in H. unfold o_internal.
     apply rbind_ok in H. destruct H as [m [Hm H]]. rewrite Hm. cbn.
@@ -176,7 +180,7 @@ Section Step.
   Qed.
 
   Lemma adjacent_step : forall name vs tg c v k,
-    v_adjacent vrec aprops vs tg c v = ROk k -> o_adjacent T orec name vs tg c v <> RErr.
+    v_adjacent vrec aprops vs tg c v = ROk k -> o_adjacent T orec filling recfill self name vs tg c v <> RErr.
   Proof.
     intros name vs tg c v k H. unfold v_adjacent in H. unfold o_adjacent.
     apply rbind_ok in H. destruct H as [m [Hm H]]. rewrite Hm. cbn.
@@ -188,7 +192,7 @@ Section Step.
     - exact (payload_struct_not_err _ _ _ _ _ H E).
   Qed.
 
-  Lemma untagged_step : forall name vs v k, v_untagged vrec aprops vs v = ROk k -> o_untagged T orec name vs v <> RErr.
+  Lemma untagged_step : forall name vs v k, v_untagged vrec aprops vs v = ROk k -> o_untagged T orec filling recfill self name vs v <> RErr.
   Proof.
     intros name vs v k H. unfold v_untagged in H. unfold o_untagged.
     apply find_map_ok in H. destruct H as [var [Hin H]].
@@ -202,7 +206,7 @@ Section Step.
   Qed.
 
   Lemma det_step : forall d v k,
-    validate_det re T vrec aprops d v = ROk k -> output_det T orec d v <> RErr.
+    validate_det re T vrec aprops d v = ROk k -> output_det T orec filling recfill self d v <> RErr.
   Proof.
     intros d v k H. destruct d; cbn [validate_det] in H; cbn [output_det].
     - (* enum *) destruct tag.
@@ -211,7 +215,7 @@ Section Step.
       + exact (adjacent_step _ _ _ _ _ _ H).
       + exact (untagged_step _ _ _ _ H).
     - (* struct *) intro E. apply rbind_err in E. destruct E as [E|[fs [_ E]]]; [|discriminate].
-      exact (struct_step _ _ _ H E).
+      exact (struct_step _ _ _ _ H E).
     - (* newtype *) intro E. apply rbind_err in E. destruct E as [E|[oe [_ E]]]; [exact (optional_not_err _ _ E)|discriminate].
     - (* native *) discriminate.
     - (* option *) destruct v; try discriminate;
@@ -265,15 +269,20 @@ Section Step.
   Qed.
 End Step.
 
-(* successful validation never lets output_value return None (the value to_stream() unwraps) *)
-Lemma validate_implies_output : forall re T f t v k,
-  validate_value re T f t v = ROk k -> output_value T f t v <> RErr.
+(* successful validation never lets output_value return None (the value to_stream() unwraps), whatever member
+   defaults are being rendered (FILLING stack) *)
+Lemma validate_implies_output_fill : forall re T f filling t v k,
+  validate_value re T f t v = ROk k -> output_fill T f filling t v <> RErr.
 Proof.
-  intros re T f. induction f as [|n IHn]; intros t v k H; cbn in H; [discriminate|].
+  intros re T f. induction f as [|n IHn]; intros filling t v k H; cbn in H; [discriminate|].
   cbn. destruct (get_det T t) as [d|]; [|discriminate].
   eapply det_step; [|exact H].
-  intros t' v' k' Hk. exact (IHn t' v' k' Hk).
+  intros t' v' k' Hk. exact (IHn filling t' v' k' Hk).
 Qed.
+
+Lemma validate_implies_output : forall re T f t v k,
+  validate_value re T f t v = ROk k -> output_value T f t v <> RErr.
+Proof. intros. unfold output_value. eapply validate_implies_output_fill; eauto. Qed.
 
 (* ------------------------------------------------------------------ repaired checks *)
 (* fix 9117497: a validated newtype default satisfies the newtype's constraints *)
@@ -417,27 +426,6 @@ Proof.
 Qed.
 Local Opaque is_nonzero_name.
 
-(* ------------------------------------------------------------------ typing on the structural fragment *)
-(* types built from bool / known integers / floats / string / unit by Option, Box, Vec, Set, fixed
-   arrays, tuples (ANY arity, incl. one) and newtypes (any constraints) *)
-Fixpoint frag (T : space) (fuel : nat) (t : id) {struct fuel} : bool :=
-  match fuel with
-  | O => false
-  | S n =>
-      match get_det T t with
-      | Some DBoolean | Some DString | Some DUnit => true
-      | Some (DInteger nm) => known_int nm
-      | Some (DFloat nm) => negb (is_nonzero_name nm)
-      | Some (DOption x) | Some (DBox x) | Some (DVec x) | Some (DSet x) | Some (DArray x _)
-      | Some (DNewtype _ _ x _) => frag T n x
-      | Some (DTuple ts) => forallb (frag T n) ts
-      | _ => false
-      end
-  end.
-
-Lemma frag_get : forall T n t, frag T n t = true -> exists d, get_det T t = Some d.
-Proof. intros T n t H. destruct n; cbn in H; [discriminate|]. destruct (get_det T t); [eauto|discriminate]. Qed.
-
 Section Typed.
   Variable T : space.
   Variable g : nat.
@@ -502,130 +490,6 @@ Proof.
   rewrite forallb_forall in Hf. exact (Hf t Hin).
 Qed.
 
-(* validated defaults of the fragment are rendered to a well-typed Rust expression *)
-Lemma frag_typed : forall re T g f t d k,
-  validate_value re T f t d = ROk k -> frag T f t = true ->
-  exists e, output_value T f t d = ROk e /\ expr_typed T g e t = true.
-Proof.
-  intros re T g f. induction f as [|n IH]; intros t d k H Hf; [discriminate H|].
-  cbn [validate_value] in H. cbn [frag] in Hf. cbn [output_value].
-  destruct (get_det T t) as [det|] eqn:Hg; [|discriminate H].
-  destruct det; try discriminate Hf; cbn [validate_det] in H; cbn [output_det].
-  - (* newtype *)
-    apply rbind_ok in H. destruct H as [k' [Hk _]].
-    destruct (IH _ _ _ Hk Hf) as [e [He Te]]. rewrite He. cbn.
-    eexists. split; [reflexivity|]. cbn [expr_typed]. rewrite Hg, ustr_eqb_refl, Te. reflexivity.
-  - (* option *)
-    destruct d; try (apply rbind_ok in H; destruct H as [k' [Hk _]];
-                     destruct (IH _ _ _ Hk Hf) as [e [He Te]]; rewrite He; cbn;
-                     eexists; split; [reflexivity|]; cbn [expr_typed]; rewrite Hg; exact Te).
-    eexists. split; [reflexivity|]. cbn [expr_typed]. rewrite Hg. reflexivity.
-  - (* box *)
-    destruct (IH _ _ _ H Hf) as [e [He Te]]. rewrite He. cbn.
-    eexists. split; [reflexivity|]. cbn [expr_typed]. rewrite Hg. exact Te.
-  - (* vec *)
-    destruct d; try discriminate H. cbn.
-    destruct (frag_get _ _ _ Hf) as [dx Hx]. rewrite Hx.
-    assert (Hall : forall x, In x l -> exists e, output_value T n t0 x = ROk e /\ expr_typed T g e t0 = true).
-    { intros x Hin. destruct l as [|y l]; [destruct Hin|].
-      apply rbind_ok in H. destruct H as [uu [Hu _]]. destruct uu.
-      destruct (each_ok_in _ _ _ _ Hu x Hin) as [k' Hk]. exact (IH _ _ _ Hk Hf). }
-    destruct (map_r_forall _ _ _ _ _ Hall) as [es [Hes [Pes _]]]. rewrite Hes. cbn.
-    eexists. split; [reflexivity|]. exact (typed_vec T g t t0 es Hg Pes).
-  - (* set *)
-    destruct d; try discriminate H. cbn.
-    destruct (frag_get _ _ _ Hf) as [dx Hx]. rewrite Hx.
-    assert (Hall : forall x, In x l -> exists e, output_value T n t0 x = ROk e /\ expr_typed T g e t0 = true).
-    { intros x Hin. destruct l as [|y l]; [destruct Hin|]. rewrite Hx in H.
-      apply rbind_ok in H. destruct H as [uu [Hu _]]. destruct uu.
-      destruct (v_set_elems_in _ _ _ Hu x Hin) as [k' Hk]. exact (IH _ _ _ Hk Hf). }
-    destruct (map_r_forall _ _ _ _ _ Hall) as [es [Hes [Pes _]]]. rewrite Hes. cbn.
-    eexists. split; [reflexivity|]. exact (typed_set T g t t0 es Hg Pes).
-  - (* array *)
-    destruct d; try discriminate H. cbn.
-    destruct (N.of_nat (length l) =? n0) eqn:El; [|discriminate H]. cbn [negb] in H.
-    destruct (frag_get _ _ _ Hf) as [dx Hx]. rewrite Hx in H |- *.
-    assert (Hall : forall x, In x l -> exists e, output_value T n t0 x = ROk e /\ expr_typed T g e t0 = true).
-    { intros x Hin. apply rbind_ok in H. destruct H as [uu [Hu _]]. destruct uu.
-      destruct (each_ok_in _ _ _ _ Hu x Hin) as [k' Hk]. exact (IH _ _ _ Hk Hf). }
-    destruct (map_r_forall _ _ _ _ _ Hall) as [es [Hes [Pes Hl]]]. rewrite Hes. cbn.
-    eexists. split; [reflexivity|]. apply N.eqb_eq in El.
-    refine (typed_array T g t t0 n0 es Hg _ Pes). rewrite Hl. exact El.
-  - (* tuple *)
-    unfold v_tuple in H. unfold o_tuple.
-    apply rbind_ok in H. destruct H as [arr [Ha H]]. rewrite Ha. cbn.
-    destruct (Nat.eqb (length arr) (length ts)) eqn:El; [|discriminate H]. cbn [negb] in H |- *.
-    apply rbind_ok in H. destruct H as [b [Hb H]]. destruct b; [|discriminate H].
-    apply Nat.eqb_eq in El.
-    destruct (map_r_forall2 (fun x e => expr_typed T g e x = true) (output_value T n) ts arr El) as [es [Hes Pes]].
-    { intros p Hin. destruct (all_is_ok_true_in _ _ _ _ Hb p Hin) as [k' Hk]. destruct p as [t1 x1].
-      exact (IH _ _ _ Hk (in_combine_forallb _ _ _ (t1, x1) Hf Hin)). }
-    rewrite Hes. cbn. eexists. split; [reflexivity|]. exact (typed_tuple T g t ts es Hg Pes).
-  - (* unit *) destruct d; try discriminate H. eexists. split; [reflexivity|]. cbn [expr_typed]. rewrite Hg. reflexivity.
-  - (* boolean *) destruct d; try discriminate H. eexists. split; [reflexivity|]. cbn [expr_typed]. rewrite Hg. reflexivity.
-  - (* integer *)
-    destruct (integer_fits name d) eqn:Ef; [|discriminate H]. cbn [negb] in H.
-    destruct d; try (cbn in H; discriminate H). cbn [is_number negb].
-    unfold known_int in Hf. apply existsb_exists in Hf. destruct Hf as [x [Hin Hx]].
-    apply ustr_eqb_eq in Hx. subst x.
-    assert (Hs : as_u64 (JInt z) <> None \/ as_i64 (JInt z) <> None).
-    { revert H. destruct (as_u64 (JInt z)); [intros _; left; discriminate|].
-      destruct (as_i64 (JInt z)); [intros _; right; discriminate|]. intro H; discriminate H. }
-    pose proof (known_int_lit name Hin z Hs Ef) as Hl. unfold int_lit_ok in Hl.
-    destruct (is_nonzero_name name) eqn:En.
-    + apply andb_true_iff in Hl. destruct Hl as [Hl _].
-      eexists. split; [reflexivity|]. cbn [expr_typed]. rewrite Hg, ustr_eqb_refl, En, Hl. reflexivity.
-    + eexists. split; [reflexivity|]. cbn [expr_typed]. rewrite Hg, ustr_eqb_refl, En, Hl. reflexivity.
-  - (* float *)
-    apply negb_true_iff in Hf.
-    revert H. destruct (is_number d) eqn:En; intro H; [|discriminate H]. cbn [negb]. rewrite Hf.
-    eexists. split; [reflexivity|]. cbn [expr_typed]. rewrite Hg, ustr_eqb_refl, En. reflexivity.
-  - (* string *) destruct d; try discriminate H. eexists. split; [reflexivity|]. cbn [expr_typed]. rewrite Hg. reflexivity.
-Qed.
-
-(* ------------------------------------------------------------------ exactness on the scalar kinds *)
-Definition scalar_det (d : details) : bool :=
-  match d with
-  | DBoolean | DString | DUnit => true
-  | DFloat n => negb (is_nonzero_name n)
-  | DInteger n => known_int n
-  | _ => false
-  end.
-
-Lemma scalar_exact : forall re T f t det d k,
-  get_det T t = Some det -> scalar_det det = true ->
-  validate_value re T (S f) t d = ROk k ->
-  exists e r, output_value T (S f) t d = ROk e /\ eval_expr T e = Some r /\ approx d r = true.
-Proof.
-  intros re T f t det d k Hg Hs Hv. cbn [validate_value] in Hv. rewrite Hg in Hv.
-  cbn [output_value]. rewrite Hg.
-  destruct det; try discriminate Hs; cbn [validate_det] in Hv; cbn [output_det]; cbn [scalar_det] in Hs.
-  - (* unit *) destruct d; try discriminate Hv. exists EUnit, JNull. repeat split; reflexivity.
-  - (* boolean *) destruct d; try discriminate Hv. exists (EBool b), (JBool b).
-    repeat split; try reflexivity. destruct b; reflexivity.
-  - (* integer *)
-    destruct (integer_fits name d) eqn:Ef; [|discriminate Hv]. cbn [negb] in Hv.
-    destruct d; try (cbn in Hv; discriminate Hv). cbn [is_number negb].
-    unfold known_int in Hs. apply existsb_exists in Hs. destruct Hs as [x [Hin Hx]].
-    apply ustr_eqb_eq in Hx. subst x.
-    assert (Hs : as_u64 (JInt z) <> None \/ as_i64 (JInt z) <> None).
-    { revert Hv. destruct (as_u64 (JInt z)); [intros _; left; discriminate|].
-      destruct (as_i64 (JInt z)); [intros _; right; discriminate|]. intro Hv; discriminate Hv. }
-    pose proof (known_int_lit name Hin z Hs Ef) as Hl. unfold int_lit_ok in Hl.
-    destruct (is_nonzero_name name) eqn:En.
-    + apply andb_true_iff in Hl. destruct Hl as [_ Hz]. apply negb_true_iff in Hz.
-      exists (ENonZero name (JInt z)), (JInt z). cbn [eval_expr is_zero_number]. rewrite Hz.
-      repeat split; try reflexivity. cbn. apply Z.eqb_refl.
-    + exists (ENum (JInt z) name), (JInt z). repeat split; try reflexivity. cbn. apply Z.eqb_refl.
-  - (* float *)
-    apply negb_true_iff in Hs.
-    revert Hv. destruct (is_number d) eqn:En; intro Hv; [|discriminate Hv]. cbn [negb]. rewrite Hs.
-    exists (ENum d name), d. repeat split; try reflexivity.
-    destruct d; try discriminate En; cbn; [apply Z.eqb_refl|apply Qeq_bool_iff; reflexivity].
-  - (* string *) destruct d; try discriminate Hv. exists (EStr s), (JStr s).
-    repeat split; try reflexivity. cbn. apply ustr_eqb_refl.
-Qed.
-
 (* ================================================================== typing, all kinds but untagged enums *)
 Fixpoint distinct (l : list ustring) : bool :=
   match l with [] => true | x :: r => negb (mem_ustr x r) && distinct r end.
@@ -665,7 +529,11 @@ Definition variant_simple (T : space) (g : nat) (dok : id -> json -> bool) (fr :
   | VStruct ps => props_simple T g dok fr ps
   end.
 
-Fixpoint tfrag (T : space) (g : nat) (dok : id -> json -> bool) (fuel : nat) (t : id) {struct fuel} : bool :=
+Definition mem_id (t : id) (l : list id) : bool := existsb (N.eqb t) l.
+
+(* [avoid]: ids of the structs / enums one of whose member defaults is being rendered (owners of the FILLING stack):
+   the fragment does not re-enter them, so that no member default is met while it is already in progress *)
+Fixpoint tfrag (T : space) (g : nat) (dok : id -> json -> bool) (avoid : list id) (fuel : nat) (t : id) {struct fuel} : bool :=
   match fuel with
   | O => false
   | S n =>
@@ -674,19 +542,40 @@ Fixpoint tfrag (T : space) (g : nat) (dok : id -> json -> bool) (fuel : nat) (t 
       | Some (DInteger nm) => known_int nm
       | Some (DFloat nm) => negb (is_nonzero_name nm)
       | Some (DOption x) | Some (DBox x) | Some (DVec x) | Some (DSet x) | Some (DArray x _)
-      | Some (DNewtype _ _ x _) => tfrag T g dok n x
-      | Some (DTuple ts) => forallb (tfrag T g dok n) ts
-      | Some (DMap k v) => tfrag T g dok n k && tfrag T g dok n v
-      | Some (DStruct _ _ ps _) => props_simple T g dok (tfrag T g dok n) ps
+      | Some (DNewtype _ _ x _) => tfrag T g dok avoid n x
+      | Some (DTuple ts) => forallb (tfrag T g dok avoid n) ts
+      | Some (DMap k v) => tfrag T g dok avoid n k && tfrag T g dok avoid n v
+      | Some (DStruct _ _ ps _) => negb (mem_id t avoid) && props_simple T g dok (tfrag T g dok (t :: avoid) n) ps
       | Some (DEnum _ _ tag vs _ _) =>
-          match tag with TagUntagged => false | _ => true end &&
-          forallb (variant_simple T g dok (tfrag T g dok n)) vs && distinct (map v_ident vs)
+          negb (mem_id t avoid) &&
+          (match tag with TagUntagged => false | _ => true end &&
+           forallb (variant_simple T g dok (tfrag T g dok (t :: avoid) n)) vs && distinct (map v_ident vs))
       | _ => false
       end
   end.
 
-Lemma tfrag_get : forall T g dok n t, tfrag T g dok n t = true -> exists d, get_det T t = Some d.
-Proof. intros T g dok n t H. destruct n; cbn in H; [discriminate|]. destruct (get_det T t); [eauto|discriminate]. Qed.
+Lemma tfrag_get : forall T g dok av n t, tfrag T g dok av n t = true -> exists d, get_det T t = Some d.
+Proof. intros T g dok av n t H. destruct n; cbn in H; [discriminate|]. destruct (get_det T t); [eauto|discriminate]. Qed.
+
+Definition owners_in (filling : list fkey) (avoid : list id) : Prop :=
+  forall i v nm, In (i, v, nm) filling -> In i avoid.
+
+Lemma fresh_of_avoid : forall filling avoid t, owners_in filling avoid -> mem_id t avoid = false ->
+  forall vid nm, in_filling (t, vid, nm) filling = false.
+Proof.
+  intros filling avoid t Ho Hm vid nm. destruct (in_filling (t, vid, nm) filling) eqn:E; [|reflexivity]. exfalso.
+  unfold in_filling in E. apply existsb_exists in E. destruct E as [[[i v] n0] [Hin He]]. cbn in He.
+  apply andb_true_iff in He. destruct He as [He _]. apply andb_true_iff in He. destruct He as [He _].
+  apply N.eqb_eq in He. subst i. pose proof (Ho _ _ _ Hin) as Ha.
+  assert (mem_id t avoid = true) by (unfold mem_id; apply existsb_exists; exists t; split; [exact Ha|apply N.eqb_refl]).
+  congruence.
+Qed.
+
+Lemma owners_in_cons_avoid : forall filling avoid t, owners_in filling avoid -> owners_in filling (t :: avoid).
+Proof. intros filling avoid t H i v nm Hin. right. exact (H _ _ _ Hin). Qed.
+
+Lemma owners_in_push : forall filling avoid t vid nm, owners_in filling avoid -> owners_in ((t, vid, nm) :: filling) (t :: avoid).
+Proof. intros filling avoid t vid nm H i v n0 [E|Hin]; [inversion E; now left|right; exact (H _ _ _ Hin)]. Qed.
 
 Lemma typed_map : forall T g t k v kvs, get_det T t = Some (DMap k v) ->
   Forall (fun ab => expr_typed T g (fst ab) k = true /\ expr_typed T g (snd ab) v = true) kvs ->
@@ -860,10 +749,16 @@ Section StructStep.
   Variable orec : id -> json -> res expr.
   Variable fr : id -> bool.
   Variable dok : id -> json -> bool.
+  Variable filling : list fkey.
+  Variable recfill : fkey -> id -> json -> res expr.
+  Variable self : id.
+  Variable vid : ustring.
   Hypothesis IHrec : forall t x k, vrec t x = ROk k -> fr t = true ->
     exists e, orec t x = ROk e /\ expr_typed T g e t = true.
-  Hypothesis IHdef : forall t dv, dok t dv = true -> fr t = true ->
-    exists e, orec t dv = ROk e /\ expr_typed T g e t = true.
+  Hypothesis IHdef : forall nm t dv, dok t dv = true -> fr t = true ->
+    exists e, recfill (self, vid, nm) t dv = ROk e /\ expr_typed T g e t = true.
+  (* no member default of this struct / variant is being rendered already *)
+  Hypothesis Hfresh : forall nm, in_filling (self, vid, nm) filling = false.
   Hypothesis Hfr_get : forall t, fr t = true -> exists d, get_det T t = Some d.
   Hypothesis Hmap : forall t k v m, get_det T t = Some (DMap k v) -> get_det T k = Some DString -> fr t = true ->
     (forall key x, In (key, x) m -> exists kk, vrec v x = ROk kk) ->
@@ -871,7 +766,7 @@ Section StructStep.
 
   Lemma struct_step_typed : forall ps d k,
     v_struct_props vrec (all_props T n) ps d = ROk k -> props_simple T g dok fr ps = true ->
-    exists fs, o_struct_props T orec ps d = ROk fs /\ fields_good T g ps fs.
+    exists fs, o_struct_props T orec filling recfill self vid ps d = ROk fs /\ fields_good T g ps fs.
   Proof.
     intros ps d k H Hs. unfold props_simple in Hs.
     apply andb_true_iff in Hs. destruct Hs as [Hs Hone].
@@ -908,7 +803,7 @@ Section StructStep.
       destruct (assoc_in _ _ _ _ Ha) as [k' [Hk' Ek]]. apply ustr_eqb_eq in Ek. subst k'.
       destruct (each_ok_in _ _ _ _ He2 _ Hk') as [b Hb]. cbn beta iota in Hb.
       destruct (has_key nm m); [reflexivity|discriminate Hb]. }
-    unfold o_struct_props. rewrite Hm. cbn [of_opt rbind].
+    unfold o_struct_props. rewrite Hm. cbn [of_opt rbind]. cbv zeta.
     (* direct members *)
     assert (HD : forall qs, (forall q, In q qs -> In q ps) ->
       exists dl, filter_map_r (fun p =>
@@ -919,7 +814,9 @@ Section StructStep.
               | Some x => rbind (optional (orec (p_ty p) x)) (fun oe => ROk (option_map (fun e => (FId (p_name p), e)) oe))
               | None =>
                   match p_state p with
-                  | PDefault dv => rbind (optional (orec (p_ty p) dv)) (fun oe => ROk (option_map (fun e => (FId (p_name p), e)) oe))
+                  | PDefault dv =>
+                      if in_filling (self, vid, p_name p) filling then ROk (Some (FId (p_name p), EDefault)) else
+                      rbind (optional (recfill (self, vid, p_name p) (p_ty p) dv)) (fun oe => ROk (option_map (fun e => (FId (p_name p), e)) oe))
                   | _ => ROk (Some (FId (p_name p), EDefault))
                   end
               end
@@ -948,7 +845,9 @@ Section StructStep.
                      | Some x => rbind (optional (orec (p_ty q) x)) (fun oe => ROk (option_map (fun e => (FId (p_name q), e)) oe))
                      | None =>
                          match p_state q with
-                         | PDefault dv => rbind (optional (orec (p_ty q) dv)) (fun oe => ROk (option_map (fun e => (FId (p_name q), e)) oe))
+                         | PDefault dv =>
+                             if in_filling (self, vid, p_name q) filling then ROk (Some (FId (p_name q), EDefault)) else
+                             rbind (optional (recfill (self, vid, p_name q) (p_ty q) dv)) (fun oe => ROk (option_map (fun e => (FId (p_name q), e)) oe))
                          | _ => ROk (Some (FId (p_name q), EDefault))
                          end
                      end) = ROk (Some (FId (p_name q), e)) /\ expr_typed T g e (p_ty q) = true).
@@ -962,7 +861,7 @@ Section StructStep.
                 pose proof (F2 q nm Hq Ew Er) as Hk. unfold has_key in Hk. rewrite Ea in Hk. discriminate Hk.
               + exists EDefault. split; [reflexivity|].
                 destruct (Hfr_get _ Hfr) as [dd Hdd]. cbn [expr_typed]. rewrite Hdd. exact Hdef.
-              + destruct (IHdef _ _ Hdef Hfr) as [e [He Te]]. exists e. rewrite He. cbn. split; [reflexivity|exact Te]. }
+              + rewrite Hfresh. destruct (IHdef (p_name q) _ _ Hdef Hfr) as [e [He Te]]. exists e. rewrite He. cbn. split; [reflexivity|exact Te]. }
           destruct Hent as [e [He Te]]. rewrite He. cbn [rbind]. rewrite Hdl. cbn [rbind].
           exists ((FId (p_name q), e) :: dl). cbn [filter]. rewrite Enf. cbn [negb length]. split; [reflexivity|].
           split; [cbn; rewrite Hlen; reflexivity|]. split.
@@ -1143,27 +1042,28 @@ End VariantStep.
 
 (* ---------------------------------------------------------------- the typing theorem *)
 Definition TypedAt (re : ustring -> ustring -> bool) (T : space) (g : nat) (dok : id -> json -> bool) (n' : nat) : Prop :=
-  forall f t d k, validate_value re T f t d = ROk k -> tfrag T g dok n' t = true ->
-    exists e, output_value T n' t d = ROk e /\ expr_typed T g e t = true.
+  forall f filling avoid t d k, owners_in filling avoid ->
+    validate_value re T f t d = ROk k -> tfrag T g dok avoid n' t = true ->
+    exists e, output_fill T n' filling t d = ROk e /\ expr_typed T g e t = true.
 
-Lemma flat_map_typed : forall re T g dok n1 f,
+Lemma flat_map_typed : forall re T g dok n1 f filling avoid, owners_in filling avoid ->
   (forall m, (m < n1)%nat -> TypedAt re T g dok m) ->
-  forall t k v mm, get_det T t = Some (DMap k v) -> get_det T k = Some DString -> tfrag T g dok n1 t = true ->
+  forall t k v mm, get_det T t = Some (DMap k v) -> get_det T k = Some DString -> tfrag T g dok avoid n1 t = true ->
     (forall key x, In (key, x) mm -> exists kk, validate_value re T f v x = ROk kk) ->
-    exists e, output_value T n1 t (JObj mm) = ROk e /\ expr_typed T g e t = true.
+    exists e, output_fill T n1 filling t (JObj mm) = ROk e /\ expr_typed T g e t = true.
 Proof.
-  intros re T g dok n1 f IH t k v mm Hg Hk Hf Hv.
+  intros re T g dok n1 f filling avoid Ho IH t k v mm Hg Hk Hf Hv.
   destruct n1 as [|m]; [discriminate Hf|]. cbn [tfrag] in Hf. rewrite Hg in Hf.
   apply andb_true_iff in Hf. destruct Hf as [Hfk Hfv].
-  cbn [output_value]. rewrite Hg. cbn [output_det as_object of_opt rbind].
-  destruct (tfrag_get _ _ _ _ _ Hfv) as [dv Hdv]. rewrite Hk, Hdv.
+  cbn [output_fill]. rewrite Hg. cbn [output_det as_object of_opt rbind].
+  destruct (tfrag_get _ _ _ _ _ _ Hfv) as [dv Hdv]. rewrite Hk, Hdv.
   assert (Hall : forall p, In p mm -> exists ab,
-            (let '(key, x) := p in rbind (output_value T m k (JStr key)) (fun a => rbind (output_value T m v x) (fun b => ROk (a, b)))) = ROk ab /\
+            (let '(key, x) := p in rbind (output_fill T m filling k (JStr key)) (fun a => rbind (output_fill T m filling v x) (fun b => ROk (a, b)))) = ROk ab /\
             (expr_typed T g (fst ab) k = true /\ expr_typed T g (snd ab) v = true)).
   { intros [key x] Hin. destruct (Hv key x Hin) as [kk Hkk].
-    destruct (IH m (Nat.lt_succ_diag_r m) _ _ _ _ Hkk Hfv) as [e [He Te]].
-    destruct m as [|m']; [discriminate Hfk|]. cbn [output_value]. rewrite Hk. cbn [output_det rbind].
-    cbn [output_value] in He. rewrite He. cbn [rbind]. eexists. split; [reflexivity|]. cbn [fst snd]. split; [|exact Te].
+    destruct (IH m (Nat.lt_succ_diag_r m) _ _ _ _ _ _ Ho Hkk Hfv) as [e [He Te]].
+    destruct m as [|m']; [discriminate Hfk|]. cbn [output_fill]. rewrite Hk. cbn [output_det rbind].
+    cbn [output_fill] in He. rewrite He. cbn [rbind]. eexists. split; [reflexivity|]. cbn [fst snd]. split; [|exact Te].
     cbn [expr_typed]. rewrite Hk. reflexivity. }
   destruct (map_r_forall _ _ _ _ _ Hall) as [kvs [Hkvs [Pk _]]]. rewrite Hkvs. cbn [rbind].
   eexists. split; [reflexivity|]. exact (typed_map T g t k v kvs Hg Pk).
@@ -1182,28 +1082,34 @@ Definition defaults_validated (re : ustring -> ustring -> bool) (T : space) (dok
 
 Theorem tfrag_typed : forall re T g dok, defaults_validated re T dok -> forall n', TypedAt re T g dok n'.
 Proof.
-  intros re T g dok Hdok n'. induction n' as [n' IHs] using lt_wf_ind. unfold TypedAt. intros f t d k H Hf.
+  intros re T g dok Hdok n'. induction n' as [n' IHs] using lt_wf_ind. unfold TypedAt. intros f filling avoid t d k Ho H Hf.
   destruct n' as [|n1]; [discriminate Hf|]. destruct f as [|n]; [discriminate H|].
   assert (IH : TypedAt re T g dok n1) by (apply IHs; lia).
   assert (IHm : forall m, (m < n1)%nat -> TypedAt re T g dok m) by (intros m Hm; apply IHs; lia).
-  assert (IHdef : forall t dv, dok t dv = true -> tfrag T g dok n1 t = true ->
-            exists e, output_value T n1 t dv = ROk e /\ expr_typed T g e t = true).
-  { intros t' dv Hd Hf'. destruct (Hdok _ _ Hd) as [f0 [k0 Hv0]]. exact (IH _ _ _ _ Hv0 Hf'). }
-  cbn [validate_value] in H. cbn [tfrag] in Hf. cbn [output_value].
+  cbn [validate_value] in H. cbn [tfrag] in Hf. cbn [output_fill].
   destruct (get_det T t) as [det|] eqn:Hg; [|discriminate H].
-  (* hypotheses of the struct / variant steps, at the member level *)
-  assert (IHrec : forall t x k, validate_value re T n t x = ROk k -> tfrag T g dok n1 t = true ->
-            exists e, output_value T n1 t x = ROk e /\ expr_typed T g e t = true).
-  { intros t' x' k' Hk' Hf'. exact (IH _ _ _ _ Hk' Hf'). }
-  assert (Hget : forall t, tfrag T g dok n1 t = true -> exists d, get_det T t = Some d) by (intros; eapply tfrag_get; eauto).
-  assert (Hmapn : forall t k v m, get_det T t = Some (DMap k v) -> get_det T k = Some DString -> tfrag T g dok n1 t = true ->
+  (* members of this type: same FILLING stack; for structs / enums the fragment of the members avoids t as well *)
+  assert (IHgen : forall av, owners_in filling av -> forall t x k, validate_value re T n t x = ROk k -> tfrag T g dok av n1 t = true ->
+            exists e, output_fill T n1 filling t x = ROk e /\ expr_typed T g e t = true).
+  { intros av Hav t' x' k' Hk' Hf'. exact (IH _ _ _ _ _ _ Hav Hk' Hf'). }
+  pose proof (IHgen avoid Ho) as IHrec.
+  pose proof (IHgen (t :: avoid) (owners_in_cons_avoid _ _ t Ho)) as IHrecS.
+  assert (IHdefS : forall key t0 dv, fst (fst key) = t -> dok t0 dv = true -> tfrag T g dok (t :: avoid) n1 t0 = true ->
+            exists e, output_fill T n1 (key :: filling) t0 dv = ROk e /\ expr_typed T g e t0 = true).
+  { intros [[i v] nm] t' dv Ek Hd Hf'. cbn in Ek. subst i. destruct (Hdok _ _ Hd) as [f0 [k0 Hv0]].
+    exact (IH _ _ _ _ _ _ (owners_in_push _ _ t v nm Ho) Hv0 Hf'). }
+  assert (Hget : forall av t, tfrag T g dok av n1 t = true -> exists d, get_det T t = Some d) by (intros; eapply tfrag_get; eauto).
+  assert (HmapS : forall t0 k v m, get_det T t0 = Some (DMap k v) -> get_det T k = Some DString -> tfrag T g dok (t :: avoid) n1 t0 = true ->
             (forall key x, In (key, x) m -> exists kk, validate_value re T n v x = ROk kk) ->
-            exists e, output_value T n1 t (JObj m) = ROk e /\ expr_typed T g e t = true).
-  { intros. eapply flat_map_typed; eauto. }
+            exists e, output_fill T n1 filling t0 (JObj m) = ROk e /\ expr_typed T g e t0 = true).
+  { intros t0 k0 v0 m0 A B C D.
+    exact (flat_map_typed re T g dok n1 n filling (t :: avoid) (owners_in_cons_avoid _ _ t Ho) IHm t0 k0 v0 m0 A B C D). }
   destruct det; try discriminate Hf; cbn [validate_det] in H; cbn [output_det].
   - (* enum *)
+    apply andb_true_iff in Hf. destruct Hf as [Hav Hf]. apply negb_true_iff in Hav.
+    pose proof (fresh_of_avoid _ _ _ Ho Hav) as Hfresh.
     apply andb_true_iff in Hf. destruct Hf as [Hf Hdi]. apply andb_true_iff in Hf. destruct Hf as [Htag Hvs].
-    assert (Hvar : forall var, In var vs -> variant_simple T g dok (tfrag T g dok n1) var = true /\
+    assert (Hvar : forall var, In var vs -> variant_simple T g dok (tfrag T g dok (t :: avoid) n1) var = true /\
                                  find_variant_ident (v_ident var) vs = Some var).
     { intros var Hin. split; [exact (proj1 (forallb_forall _ _) Hvs var Hin)|exact (find_ident_distinct _ _ Hdi Hin)]. }
     destruct tag; try discriminate Htag.
@@ -1219,11 +1125,13 @@ Proof.
         destruct (Hvar var (find_variant_in _ _ _ Hv)) as [Hvs1 Hfi]. unfold variant_simple in Hvs1.
         apply andb_true_iff in Hvs1. destruct Hvs1 as [Hid Hvd]. rewrite (var_ident_ok _ Hid). cbn [rbind].
         unfold v_variant_payload in H. destruct (v_det var) eqn:Ed; try discriminate H.
-        -- destruct (IHrec _ _ _ H Hvd) as [e [He Te]]. rewrite He. cbn [optional rbind].
+        -- destruct (IHrecS _ _ _ H Hvd) as [e [He Te]]. rewrite He. cbn [optional rbind].
            eexists. split; [reflexivity|]. eapply typed_varitem; eauto.
-        -- destruct (tuple_step_typed T g _ _ _ IHrec _ _ _ H Hvd) as [es [Hes Pes]]. rewrite Hes. cbn [rbind].
+        -- destruct (tuple_step_typed T g _ _ _ IHrecS _ _ _ H Hvd) as [es [Hes Pes]]. rewrite Hes. cbn [rbind].
            eexists. split; [reflexivity|]. eapply typed_vartuple; eauto.
-        -- destruct (struct_step_typed T g n _ _ _ _ IHrec IHdef Hget Hmapn _ _ _ H Hvd) as [fs [Hfs Gfs]]. rewrite Hfs. cbn [rbind].
+        -- destruct (struct_step_typed T g n (validate_value re T n) (output_fill T n1 filling) (tfrag T g dok (t :: avoid) n1) dok
+                     filling (fun key => output_fill T n1 (key :: filling)) t (v_ident var) IHrecS
+                     (fun nm t0 dv => IHdefS (t, v_ident var, nm) t0 dv eq_refl) (Hfresh (v_ident var)) (Hget (t :: avoid)) HmapS _ _ _ H Hvd) as [fs [Hfs Gfs]]. rewrite Hfs. cbn [rbind].
            eexists. split; [reflexivity|]. eapply typed_varstruct; eauto. exact (split_props_simple _ _ _ _ _ Hvd).
     + (* internal *)
       unfold v_internal in H. unfold o_internal.
@@ -1235,7 +1143,9 @@ Proof.
       apply andb_true_iff in Hvs1. destruct Hvs1 as [Hid Hvd]. rewrite (var_ident_ok _ Hid). cbn [rbind].
       destruct (v_det var) eqn:Ed; try discriminate H.
       * eexists. split; [reflexivity|]. eapply typed_varunit; eauto.
-      * destruct (struct_step_typed T g n _ _ _ _ IHrec IHdef Hget Hmapn _ _ _ H Hvd) as [fs [Hfs Gfs]]. rewrite Hfs. cbn [rbind].
+      * destruct (struct_step_typed T g n (validate_value re T n) (output_fill T n1 filling) (tfrag T g dok (t :: avoid) n1) dok
+                     filling (fun key => output_fill T n1 (key :: filling)) t (v_ident var) IHrecS
+                     (fun nm t0 dv => IHdefS (t, v_ident var, nm) t0 dv eq_refl) (Hfresh (v_ident var)) (Hget (t :: avoid)) HmapS _ _ _ H Hvd) as [fs [Hfs Gfs]]. rewrite Hfs. cbn [rbind].
         eexists. split; [reflexivity|]. eapply typed_varstruct; eauto. exact (split_props_simple _ _ _ _ _ Hvd).
     + (* adjacent *)
       unfold v_adjacent in H. unfold o_adjacent.
@@ -1246,12 +1156,18 @@ Proof.
       apply andb_true_iff in Hvs1. destruct Hvs1 as [Hid Hvd]. rewrite (var_ident_ok _ Hid). cbn [rbind].
       destruct (v_det var) eqn:Ed; destruct cv; try discriminate H.
       * eexists. split; [reflexivity|]. eapply typed_varunit; eauto.
-      * destruct (tuple_step_typed T g _ _ _ IHrec _ _ _ H Hvd) as [es [Hes Pes]]. rewrite Hes. cbn [rbind].
+      * destruct (tuple_step_typed T g _ _ _ IHrecS _ _ _ H Hvd) as [es [Hes Pes]]. rewrite Hes. cbn [rbind].
         eexists. split; [reflexivity|]. eapply typed_vartuple; eauto.
-      * destruct (struct_step_typed T g n _ _ _ _ IHrec IHdef Hget Hmapn _ _ _ H Hvd) as [fs [Hfs Gfs]]. rewrite Hfs. cbn [rbind].
+      * destruct (struct_step_typed T g n (validate_value re T n) (output_fill T n1 filling) (tfrag T g dok (t :: avoid) n1) dok
+                     filling (fun key => output_fill T n1 (key :: filling)) t (v_ident var) IHrecS
+                     (fun nm t0 dv => IHdefS (t, v_ident var, nm) t0 dv eq_refl) (Hfresh (v_ident var)) (Hget (t :: avoid)) HmapS _ _ _ H Hvd) as [fs [Hfs Gfs]]. rewrite Hfs. cbn [rbind].
         eexists. split; [reflexivity|]. eapply typed_varstruct; eauto. exact (split_props_simple _ _ _ _ _ Hvd).
   - (* struct *)
-    destruct (struct_step_typed T g n _ _ _ _ IHrec IHdef Hget Hmapn _ _ _ H Hf) as [fs [Hfs Gfs]]. rewrite Hfs. cbn [rbind].
+    apply andb_true_iff in Hf. destruct Hf as [Hav Hf]. apply negb_true_iff in Hav.
+    pose proof (fresh_of_avoid _ _ _ Ho Hav) as Hfresh.
+    destruct (struct_step_typed T g n (validate_value re T n) (output_fill T n1 filling) (tfrag T g dok (t :: avoid) n1) dok
+                filling (fun key => output_fill T n1 (key :: filling)) t [] IHrecS
+                (fun nm t0 dv => IHdefS (t, [], nm) t0 dv eq_refl) (Hfresh []) (Hget (t :: avoid)) HmapS _ _ _ H Hf) as [fs [Hfs Gfs]]. rewrite Hfs. cbn [rbind].
     eexists. split; [reflexivity|]. eapply typed_struct; eauto. exact (split_props_simple _ _ _ _ _ Hf).
   - (* newtype *)
     apply rbind_ok in H. destruct H as [k' [Hk _]].
@@ -1269,8 +1185,8 @@ Proof.
     eexists. split; [reflexivity|]. cbn [expr_typed]. rewrite Hg. exact Te.
   - (* vec *)
     destruct d; try discriminate H. cbn.
-    destruct (Hget _ Hf) as [dx Hx]. rewrite Hx.
-    assert (Hall : forall x, In x l -> exists e, output_value T n1 t0 x = ROk e /\ expr_typed T g e t0 = true).
+    destruct (Hget _ _ Hf) as [dx Hx]. rewrite Hx.
+    assert (Hall : forall x, In x l -> exists e, output_fill T n1 filling t0 x = ROk e /\ expr_typed T g e t0 = true).
     { intros x Hin. destruct l as [|y l]; [destruct Hin|].
       apply rbind_ok in H. destruct H as [uu [Hu _]]. destruct uu.
       destruct (each_ok_in _ _ _ _ Hu x Hin) as [k' Hk]. exact (IHrec _ _ _ Hk Hf). }
@@ -1279,9 +1195,9 @@ Proof.
   - (* map *)
     apply andb_true_iff in Hf. destruct Hf as [Hfk Hfv].
     destruct d; try discriminate H. cbn [as_object of_opt rbind].
-    destruct (Hget _ Hfk) as [dk Hdk]. destruct (Hget _ Hfv) as [dv Hdv]. rewrite Hdk, Hdv.
+    destruct (Hget _ _ Hfk) as [dk Hdk]. destruct (Hget _ _ Hfv) as [dv Hdv]. rewrite Hdk, Hdv.
     assert (Hall : forall p, In p kvs -> exists ab,
-              (let '(key, x) := p in rbind (output_value T n1 k0 (JStr key)) (fun a => rbind (output_value T n1 v x) (fun b => ROk (a, b)))) = ROk ab /\
+              (let '(key, x) := p in rbind (output_fill T n1 filling k0 (JStr key)) (fun a => rbind (output_fill T n1 filling v x) (fun b => ROk (a, b)))) = ROk ab /\
               (expr_typed T g (fst ab) k0 = true /\ expr_typed T g (snd ab) v = true)).
     { intros [key x] Hin. destruct kvs as [|y kvs]; [destruct Hin|]. rewrite Hdk, Hdv in H.
       apply rbind_ok in H. destruct H as [uu [Hu _]]. destruct uu.
@@ -1293,8 +1209,8 @@ Proof.
     eexists. split; [reflexivity|]. exact (typed_map T g t k0 v es Hg Pes).
   - (* set *)
     destruct d; try discriminate H. cbn.
-    destruct (Hget _ Hf) as [dx Hx]. rewrite Hx.
-    assert (Hall : forall x, In x l -> exists e, output_value T n1 t0 x = ROk e /\ expr_typed T g e t0 = true).
+    destruct (Hget _ _ Hf) as [dx Hx]. rewrite Hx.
+    assert (Hall : forall x, In x l -> exists e, output_fill T n1 filling t0 x = ROk e /\ expr_typed T g e t0 = true).
     { intros x Hin. destruct l as [|y l]; [destruct Hin|]. rewrite Hx in H.
       apply rbind_ok in H. destruct H as [uu [Hu _]]. destruct uu.
       destruct (v_set_elems_in _ _ _ Hu x Hin) as [k' Hk]. exact (IHrec _ _ _ Hk Hf). }
@@ -1303,8 +1219,8 @@ Proof.
   - (* array *)
     destruct d; try discriminate H. cbn.
     destruct (N.of_nat (length l) =? n0) eqn:El; [|discriminate H]. cbn [negb] in H.
-    destruct (Hget _ Hf) as [dx Hx]. rewrite Hx in H |- *.
-    assert (Hall : forall x, In x l -> exists e, output_value T n1 t0 x = ROk e /\ expr_typed T g e t0 = true).
+    destruct (Hget _ _ Hf) as [dx Hx]. rewrite Hx in H |- *.
+    assert (Hall : forall x, In x l -> exists e, output_fill T n1 filling t0 x = ROk e /\ expr_typed T g e t0 = true).
     { intros x Hin. apply rbind_ok in H. destruct H as [uu [Hu _]]. destruct uu.
       destruct (each_ok_in _ _ _ _ Hu x Hin) as [k' Hk]. exact (IHrec _ _ _ Hk Hf). }
     destruct (map_r_forall _ _ _ _ _ Hall) as [es [Hes [Pes Hl]]]. rewrite Hes. cbn.
@@ -1413,44 +1329,44 @@ Proof.
   intros T l es H. destruct (exact_split _ _ _ H) as [rs [H1 H2]]. exists rs. split; [exact H1|exact (approx_arr _ _ H2)].
 Qed.
 
-Theorem efrag_exact : forall re T n' f t d k,
+Theorem efrag_exact_fill : forall re T n' f filling t d k,
   validate_value re T f t d = ROk k -> efrag T n' t = true ->
-  exists e, output_value T n' t d = ROk e /\ Exact T d e.
+  exists e, output_fill T n' filling t d = ROk e /\ Exact T d e.
 Proof.
-  intros re T n'. induction n' as [|n1 IH]; intros f t d k H Hf; [discriminate Hf|].
+  intros re T n'. induction n' as [|n1 IH]; intros f filling t d k H Hf; [discriminate Hf|].
   destruct f as [|n]; [discriminate H|].
-  cbn [validate_value] in H. cbn [efrag] in Hf. cbn [output_value].
+  cbn [validate_value] in H. cbn [efrag] in Hf. cbn [output_fill].
   destruct (get_det T t) as [det|] eqn:Hg; [|discriminate H].
   destruct det; try discriminate Hf; cbn [validate_det] in H; cbn [output_det].
   - (* newtype *)
     apply rbind_ok in H. destruct H as [k' [Hk _]].
-    destruct (IH _ _ _ _ Hk Hf) as [e [He [r [Er Ar]]]]. rewrite He. cbn.
+    destruct (IH _ filling _ _ _ Hk Hf) as [e [He [r [Er Ar]]]]. rewrite He. cbn.
     eexists. split; [reflexivity|]. exists r. split; [exact Er|exact Ar].
   - (* option *)
     destruct d; try (apply rbind_ok in H; destruct H as [k' [Hk _]];
-                     destruct (IH _ _ _ _ Hk Hf) as [e [He [r [Er Ar]]]]; rewrite He; cbn;
+                     destruct (IH _ filling _ _ _ Hk Hf) as [e [He [r [Er Ar]]]]; rewrite He; cbn;
                      eexists; split; [reflexivity|]; exists r; split; [exact Er|exact Ar]).
     eexists. split; [reflexivity|]. exists JNull. split; reflexivity.
   - (* box *)
-    destruct (IH _ _ _ _ H Hf) as [e [He [r [Er Ar]]]]. rewrite He. cbn.
+    destruct (IH _ filling _ _ _ H Hf) as [e [He [r [Er Ar]]]]. rewrite He. cbn.
     eexists. split; [reflexivity|]. exists r. split; [exact Er|exact Ar].
   - (* vec *)
     destruct d; try discriminate H. cbn.
     destruct (efrag_get _ _ _ Hf) as [dx Hx]. rewrite Hx.
-    assert (Hall : forall x, In x l -> exists e, output_value T n1 t0 x = ROk e /\ Exact T x e).
+    assert (Hall : forall x, In x l -> exists e, output_fill T n1 filling t0 x = ROk e /\ Exact T x e).
     { intros x Hin. destruct l as [|y l]; [destruct Hin|].
       apply rbind_ok in H. destruct H as [uu [Hu _]]. destruct uu.
-      destruct (each_ok_in _ _ _ _ Hu x Hin) as [k' Hk]. exact (IH _ _ _ _ Hk Hf). }
+      destruct (each_ok_in _ _ _ _ Hu x Hin) as [k' Hk]. exact (IH _ filling _ _ _ Hk Hf). }
     destruct (map_r_rel _ _ _ _ _ Hall) as [es [Hes Pes]]. rewrite Hes. cbn.
     destruct (exact_list _ _ _ Pes) as [rs [Ers Ars]].
     eexists. split; [reflexivity|]. exists (JArr rs). split; [exact (eval_vec _ _ _ Ers)|exact Ars].
   - (* set *)
     destruct d; try discriminate H. cbn.
     destruct (efrag_get _ _ _ Hf) as [dx Hx]. rewrite Hx.
-    assert (Hall : forall x, In x l -> exists e, output_value T n1 t0 x = ROk e /\ Exact T x e).
+    assert (Hall : forall x, In x l -> exists e, output_fill T n1 filling t0 x = ROk e /\ Exact T x e).
     { intros x Hin. destruct l as [|y l]; [destruct Hin|]. rewrite Hx in H.
       apply rbind_ok in H. destruct H as [uu [Hu _]]. destruct uu.
-      destruct (v_set_elems_in _ _ _ Hu x Hin) as [k' Hk]. exact (IH _ _ _ _ Hk Hf). }
+      destruct (v_set_elems_in _ _ _ Hu x Hin) as [k' Hk]. exact (IH _ filling _ _ _ Hk Hf). }
     destruct (map_r_rel _ _ _ _ _ Hall) as [es [Hes Pes]]. rewrite Hes. cbn.
     destruct (exact_list _ _ _ Pes) as [rs [Ers Ars]].
     eexists. split; [reflexivity|]. exists (JArr rs). split; [exact (eval_vec _ _ _ Ers)|exact Ars].
@@ -1458,9 +1374,9 @@ Proof.
     destruct d; try discriminate H. cbn.
     destruct (N.of_nat (length l) =? n0) eqn:El; [|discriminate H]. cbn [negb] in H.
     destruct (efrag_get _ _ _ Hf) as [dx Hx]. rewrite Hx in H |- *.
-    assert (Hall : forall x, In x l -> exists e, output_value T n1 t0 x = ROk e /\ Exact T x e).
+    assert (Hall : forall x, In x l -> exists e, output_fill T n1 filling t0 x = ROk e /\ Exact T x e).
     { intros x Hin. apply rbind_ok in H. destruct H as [uu [Hu _]]. destruct uu.
-      destruct (each_ok_in _ _ _ _ Hu x Hin) as [k' Hk]. exact (IH _ _ _ _ Hk Hf). }
+      destruct (each_ok_in _ _ _ _ Hu x Hin) as [k' Hk]. exact (IH _ filling _ _ _ Hk Hf). }
     destruct (map_r_rel _ _ _ _ _ Hall) as [es [Hes Pes]]. rewrite Hes. cbn.
     destruct (exact_list _ _ _ Pes) as [rs [Ers Ars]].
     eexists. split; [reflexivity|]. exists (JArr rs). split; [exact (eval_arr _ _ _ Ers)|exact Ars].
@@ -1471,9 +1387,9 @@ Proof.
     apply rbind_ok in H. destruct H as [b [Hb H]]. destruct b; [|discriminate H].
     apply Nat.eqb_eq in El.
     assert (Hall : forall p, In p (combine ts arr) ->
-              exists e, (let '(t1, x1) := p in output_value T n1 t1 x1) = ROk e /\ Exact T (snd p) e).
+              exists e, (let '(t1, x1) := p in output_fill T n1 filling t1 x1) = ROk e /\ Exact T (snd p) e).
     { intros p Hin. destruct (all_is_ok_true_in _ _ _ _ Hb p Hin) as [k' Hk]. destruct p as [t1 x1].
-      apply in_combine_l in Hin. exact (IH _ _ _ _ Hk (proj1 (forallb_forall _ _) Hf t1 Hin)). }
+      apply in_combine_l in Hin. exact (IH _ filling _ _ _ Hk (proj1 (forallb_forall _ _) Hf t1 Hin)). }
     destruct (map_r_rel _ _ (fun p e => Exact T (snd p) e) _ _ Hall) as [es [Hes Pes]]. rewrite Hes. cbn [rbind].
     apply forall2_combine in Pes; [|exact El].
     destruct (exact_list _ _ _ Pes) as [rs [Ers Ars]].
@@ -1504,6 +1420,12 @@ Proof.
   - (* string *) destruct d; try discriminate H. eexists. split; [reflexivity|]. exists (JStr s). split; [reflexivity|].
     cbn. apply ustr_eqb_refl.
 Qed.
+
+Theorem efrag_exact : forall re T n' f t d k,
+  validate_value re T f t d = ROk k -> efrag T n' t = true ->
+  exists e, output_value T n' t d = ROk e /\ Exact T d e.
+Proof. intros. unfold output_value. eapply efrag_exact_fill; eauto. Qed.
+
 
 (* ------------------------------------------------------------------ ex finding C06-F12 (fixed by a08c818) *)
 (* Pt { x : i64 (required), y : i64 with its own default 7 }: the default {"x":1} validates and now renders
@@ -1672,14 +1594,19 @@ Section XStruct.
   Variable orec : id -> json -> res expr.
   Variable fr : id -> bool.
   Variable dok : id -> json -> bool.
+  Variable filling : list fkey.
+  Variable recfill : fkey -> id -> json -> res expr.
+  Variable self : id.
+  Variable vid : ustring.
   Hypothesis IHrec : forall t x k, vrec t x = ROk k -> wf_json x = true -> fr t = true ->
     exists e, orec t x = ROk e /\ Exact T x e.
-  Hypothesis IHdef : forall t dv, dok t dv = true -> fr t = true -> exists e, orec t dv = ROk e /\ Exact T dv e.
+  Hypothesis IHdef : forall nm t dv, dok t dv = true -> fr t = true ->
+    exists e, recfill (self, vid, nm) t dv = ROk e /\ Exact T dv e.
 
   Lemma struct_step_exact : forall name def ps deny d k,
     find_named T name = Some (DStruct name def ps deny) ->
     v_struct_props vrec (all_props T n) ps d = ROk k -> wf_json d = true -> xprops_simple T dok fr ps = true ->
-    exists fs, o_struct_props T orec ps d = ROk fs /\ Exact T d (EStruct name fs).
+    exists fs, o_struct_props T orec filling recfill self vid ps d = ROk fs /\ Exact T d (EStruct name fs).
   Proof.
     intros name def ps deny d k Hfn H Hwf Hs. unfold xprops_simple in Hs.
     apply andb_true_iff in Hs. destruct Hs as [Hs Hdw]. apply andb_true_iff in Hs. destruct Hs as [Hall Hdn].
@@ -1707,7 +1634,7 @@ Section XStruct.
     assert (F1 : forall p nm x, In p ps -> wire_name p = Some nm -> In (nm, x) m -> exists kk, vrec (p_ty p) x = ROk kk).
     { intros p nm x Hp Hw Hin. destruct (each_ok_in _ _ _ _ He1 (nm, x) Hin) as [b Hb]. cbn beta iota in Hb.
       rewrite (Hnamed p nm Hp Hw) in Hb. apply rbind_ok in Hb. destruct Hb as [kk [Hk _]]. eauto. }
-    unfold o_struct_props. cbn [as_object of_opt rbind].
+    unfold o_struct_props. cbn [as_object of_opt rbind]. cbv zeta.
     assert (HD : forall qs, (forall q, In q qs -> In q ps) -> distinct (wire_names qs) = true ->
       exists dl mr, filter_map_r (fun p =>
           match wire_name p with
@@ -1717,7 +1644,9 @@ Section XStruct.
               | Some x => rbind (optional (orec (p_ty p) x)) (fun oe => ROk (option_map (fun e => (FId (p_name p), e)) oe))
               | None =>
                   match p_state p with
-                  | PDefault dv => rbind (optional (orec (p_ty p) dv)) (fun oe => ROk (option_map (fun e => (FId (p_name p), e)) oe))
+                  | PDefault dv =>
+                      if in_filling (self, vid, p_name p) filling then ROk (Some (FId (p_name p), EDefault)) else
+                      rbind (optional (recfill (self, vid, p_name p) (p_ty p) dv)) (fun oe => ROk (option_map (fun e => (FId (p_name p), e)) oe))
                   | _ => ROk (Some (FId (p_name p), EDefault))
                   end
               end
@@ -1800,7 +1729,13 @@ Section XStruct.
             split; [rewrite eval_struct_cons_default; exact Hev|]. split.
             -- intros k1 a1 Ha1. unfold wire_names. cbn. apply in_or_app. right. exact (Hkeysmr _ _ Ha1).
             -- intros q' k1 u [<-|Hq'] Hw' Hin; [rewrite Hw in Hw'; inversion Hw'; subst; exfalso; exact (Hnoin _ Hin)|exact (Hinv q' k1 u Hq' Hw' Hin)].
-          * destruct (IHdef _ _ Hdef Hfr) as [e [He [a [Hea _]]]].
+          * destruct (in_filling (self, vid, p_name q) filling) eqn:Ein.
+            { (* fd85c79: this member default is already being rendered: left to Default::default() *)
+              rewrite Hdl. cbn [rbind]. exists ((FId (p_name q), EDefault) :: dl), mr. split; [reflexivity|].
+              split; [rewrite eval_struct_cons_default; exact Hev|]. split.
+              - intros k1 a1 Ha1. unfold wire_names. cbn. apply in_or_app. right. exact (Hkeysmr _ _ Ha1).
+              - intros q' k1 u [<-|Hq'] Hw' Hin; [rewrite Hw in Hw'; inversion Hw'; subst; exfalso; exact (Hnoin _ Hin)|exact (Hinv q' k1 u Hq' Hw' Hin)]. }
+            destruct (IHdef (p_name q) _ _ Hdef Hfr) as [e [He [a [Hea _]]]].
             rewrite He. cbn [optional rbind option_map]. rewrite Hdl. cbn [rbind].
             destruct (Hrend e a Hea) as [mr' [Hev' [Hk' Hi']]].
             { intros u Hu. exfalso. exact (Hnoin _ Hu). }
@@ -1859,53 +1794,54 @@ Definition named_ok (T : space) : Prop :=
 Definition defaults_validated_wf (re : ustring -> ustring -> bool) (T : space) (dok : id -> json -> bool) : Prop :=
   forall t dv, dok t dv = true -> wf_json dv = true /\ exists f k, validate_value re T f t dv = ROk k.
 
-Theorem xfrag_exact : forall re T dok, named_ok T -> defaults_validated_wf re T dok ->
-  forall n' f t d k,
+Theorem xfrag_exact_fill : forall re T dok, named_ok T -> defaults_validated_wf re T dok ->
+  forall n' f filling t d k,
   validate_value re T f t d = ROk k -> wf_json d = true -> xfrag T dok n' t = true ->
-  exists e, output_value T n' t d = ROk e /\ Exact T d e.
+  exists e, output_fill T n' filling t d = ROk e /\ Exact T d e.
 Proof.
-  intros re T dok Hnok Hdok n'. induction n' as [|n1 IH]; intros f t d k H Hwf Hf; [discriminate Hf|].
+  intros re T dok Hnok Hdok n'. induction n' as [|n1 IH]; intros f filling t d k H Hwf Hf; [discriminate Hf|].
   destruct f as [|n]; [discriminate H|].
-  cbn [validate_value] in H. cbn [xfrag] in Hf. cbn [output_value].
+  cbn [validate_value] in H. cbn [xfrag] in Hf. cbn [output_fill].
   destruct (get_det T t) as [det|] eqn:Hg; [|discriminate H].
   destruct det; try discriminate Hf; cbn [validate_det] in H; cbn [output_det].
   - (* struct *)
     assert (IHrec : forall t x k, validate_value re T n t x = ROk k -> wf_json x = true -> xfrag T dok n1 t = true ->
-              exists e, output_value T n1 t x = ROk e /\ Exact T x e) by (intros; eapply IH; eauto).
-    assert (IHdef : forall t dv, dok t dv = true -> xfrag T dok n1 t = true ->
-              exists e, output_value T n1 t dv = ROk e /\ Exact T dv e).
-    { intros t' dv Hd Hf'. destruct (Hdok _ _ Hd) as [Hw [f0 [k0 Hv0]]]. exact (IH _ _ _ _ Hv0 Hw Hf'). }
-    destruct (struct_step_exact T n _ _ _ _ IHrec IHdef _ _ _ _ _ _ (Hnok _ _ _ _ _ Hg) H Hwf Hf) as [fs [Hfs Ex]].
+              exists e, output_fill T n1 filling t x = ROk e /\ Exact T x e) by (intros; eapply IH; eauto).
+    assert (IHdef : forall nm t0 dv, dok t0 dv = true -> xfrag T dok n1 t0 = true ->
+              exists e, output_fill T n1 ((t, [], nm) :: filling) t0 dv = ROk e /\ Exact T dv e).
+    { intros nm t' dv Hd Hf'. destruct (Hdok _ _ Hd) as [Hw [f0 [k0 Hv0]]]. exact (IH _ _ _ _ _ Hv0 Hw Hf'). }
+    destruct (struct_step_exact T n (validate_value re T n) (output_fill T n1 filling) (xfrag T dok n1) dok filling
+                (fun key => output_fill T n1 (key :: filling)) t [] IHrec IHdef _ _ _ _ _ _ (Hnok _ _ _ _ _ Hg) H Hwf Hf) as [fs [Hfs Ex]].
     rewrite Hfs. cbn [rbind]. eexists. split; [reflexivity|exact Ex].
   - (* newtype *)
     apply rbind_ok in H. destruct H as [k' [Hk _]].
-    destruct (IH _ _ _ _ Hk Hwf Hf) as [e [He [r [Er Ar]]]]. rewrite He. cbn.
+    destruct (IH _ filling _ _ _ Hk Hwf Hf) as [e [He [r [Er Ar]]]]. rewrite He. cbn.
     eexists. split; [reflexivity|]. exists r. split; [exact Er|exact Ar].
   - (* option *)
     destruct d; try (apply rbind_ok in H; destruct H as [k' [Hk _]];
-                     destruct (IH _ _ _ _ Hk Hwf Hf) as [e [He [r [Er Ar]]]]; rewrite He; cbn;
+                     destruct (IH _ filling _ _ _ Hk Hwf Hf) as [e [He [r [Er Ar]]]]; rewrite He; cbn;
                      eexists; split; [reflexivity|]; exists r; split; [exact Er|exact Ar]).
     eexists. split; [reflexivity|]. exists JNull. split; reflexivity.
   - (* box *)
-    destruct (IH _ _ _ _ H Hwf Hf) as [e [He [r [Er Ar]]]]. rewrite He. cbn.
+    destruct (IH _ filling _ _ _ H Hwf Hf) as [e [He [r [Er Ar]]]]. rewrite He. cbn.
     eexists. split; [reflexivity|]. exists r. split; [exact Er|exact Ar].
   - (* vec *)
     destruct d; try discriminate H. cbn.
     destruct (xfrag_get _ _ _ _ Hf) as [dx Hx]. rewrite Hx.
-    assert (Hall : forall x, In x l -> exists e, output_value T n1 t0 x = ROk e /\ Exact T x e).
+    assert (Hall : forall x, In x l -> exists e, output_fill T n1 filling t0 x = ROk e /\ Exact T x e).
     { intros x Hin. destruct l as [|y l]; [destruct Hin|].
       apply rbind_ok in H. destruct H as [uu [Hu _]]. destruct uu.
-      destruct (each_ok_in _ _ _ _ Hu x Hin) as [k' Hk]. exact (IH _ _ _ _ Hk (wf_arr _ Hwf x Hin) Hf). }
+      destruct (each_ok_in _ _ _ _ Hu x Hin) as [k' Hk]. exact (IH _ filling _ _ _ Hk (wf_arr _ Hwf x Hin) Hf). }
     destruct (map_r_rel _ _ _ _ _ Hall) as [es [Hes Pes]]. rewrite Hes. cbn.
     destruct (exact_list _ _ _ Pes) as [rs [Ers Ars]].
     eexists. split; [reflexivity|]. exists (JArr rs). split; [exact (eval_vec _ _ _ Ers)|exact Ars].
   - (* set *)
     destruct d; try discriminate H. cbn.
     destruct (xfrag_get _ _ _ _ Hf) as [dx Hx]. rewrite Hx.
-    assert (Hall : forall x, In x l -> exists e, output_value T n1 t0 x = ROk e /\ Exact T x e).
+    assert (Hall : forall x, In x l -> exists e, output_fill T n1 filling t0 x = ROk e /\ Exact T x e).
     { intros x Hin. destruct l as [|y l]; [destruct Hin|]. rewrite Hx in H.
       apply rbind_ok in H. destruct H as [uu [Hu _]]. destruct uu.
-      destruct (v_set_elems_in _ _ _ Hu x Hin) as [k' Hk]. exact (IH _ _ _ _ Hk (wf_arr _ Hwf x Hin) Hf). }
+      destruct (v_set_elems_in _ _ _ Hu x Hin) as [k' Hk]. exact (IH _ filling _ _ _ Hk (wf_arr _ Hwf x Hin) Hf). }
     destruct (map_r_rel _ _ _ _ _ Hall) as [es [Hes Pes]]. rewrite Hes. cbn.
     destruct (exact_list _ _ _ Pes) as [rs [Ers Ars]].
     eexists. split; [reflexivity|]. exists (JArr rs). split; [exact (eval_vec _ _ _ Ers)|exact Ars].
@@ -1913,9 +1849,9 @@ Proof.
     destruct d; try discriminate H. cbn.
     destruct (N.of_nat (length l) =? n0) eqn:El; [|discriminate H]. cbn [negb] in H.
     destruct (xfrag_get _ _ _ _ Hf) as [dx Hx]. rewrite Hx in H |- *.
-    assert (Hall : forall x, In x l -> exists e, output_value T n1 t0 x = ROk e /\ Exact T x e).
+    assert (Hall : forall x, In x l -> exists e, output_fill T n1 filling t0 x = ROk e /\ Exact T x e).
     { intros x Hin. apply rbind_ok in H. destruct H as [uu [Hu _]]. destruct uu.
-      destruct (each_ok_in _ _ _ _ Hu x Hin) as [k' Hk]. exact (IH _ _ _ _ Hk (wf_arr _ Hwf x Hin) Hf). }
+      destruct (each_ok_in _ _ _ _ Hu x Hin) as [k' Hk]. exact (IH _ filling _ _ _ Hk (wf_arr _ Hwf x Hin) Hf). }
     destruct (map_r_rel _ _ _ _ _ Hall) as [es [Hes Pes]]. rewrite Hes. cbn.
     destruct (exact_list _ _ _ Pes) as [rs [Ers Ars]].
     eexists. split; [reflexivity|]. exists (JArr rs). split; [exact (eval_arr _ _ _ Ers)|exact Ars].
@@ -1927,10 +1863,10 @@ Proof.
     apply Nat.eqb_eq in El.
     destruct d; try discriminate Ha. cbn in Ha. inversion Ha; subst l.
     assert (Hall : forall p, In p (combine ts arr) ->
-              exists e, (let '(t1, x1) := p in output_value T n1 t1 x1) = ROk e /\ Exact T (snd p) e).
+              exists e, (let '(t1, x1) := p in output_fill T n1 filling t1 x1) = ROk e /\ Exact T (snd p) e).
     { intros p Hin. destruct (all_is_ok_true_in _ _ _ _ Hb p Hin) as [k' Hk]. destruct p as [t1 x1].
       pose proof (in_combine_r _ _ _ _ Hin) as Hinr. apply in_combine_l in Hin.
-      exact (IH _ _ _ _ Hk (wf_arr _ Hwf x1 Hinr) (proj1 (forallb_forall _ _) Hf t1 Hin)). }
+      exact (IH _ filling _ _ _ Hk (wf_arr _ Hwf x1 Hinr) (proj1 (forallb_forall _ _) Hf t1 Hin)). }
     destruct (map_r_rel _ _ (fun p e => Exact T (snd p) e) _ _ Hall) as [es [Hes Pes]]. rewrite Hes. cbn [rbind].
     apply forall2_combine in Pes; [|exact El].
     destruct (exact_list _ _ _ Pes) as [rs [Ers Ars]].
@@ -1960,6 +1896,13 @@ Proof.
   - (* string *) destruct d; try discriminate H. eexists. split; [reflexivity|]. exists (JStr s). split; [reflexivity|].
     cbn. apply ustr_eqb_refl.
 Qed.
+
+Theorem xfrag_exact : forall re T dok, named_ok T -> defaults_validated_wf re T dok ->
+  forall n' f t d k,
+  validate_value re T f t d = ROk k -> wf_json d = true -> xfrag T dok n' t = true ->
+  exists e, output_value T n' t d = ROk e /\ Exact T d e.
+Proof. intros. unfold output_value. eapply xfrag_exact_fill; eauto. Qed.
+
 
 Lemma named_ok_Tf12 : named_ok Tf12.
 Proof.
